@@ -54,6 +54,12 @@ type Case struct {
 	// ObsStatFailsEvery: every n-th stat of the heart-beat file by an observer fails with a transient I/O error (what a
 	// network share does now and then): not being able to read the age of a sign of life is no evidence of death
 	ObsStatFailsEvery int `json:"observer_stat_fails_every,omitempty"`
+	// ObserverID: how the observers (and whoever recovers the lock of a dead holder) spell the lock's identifier: the
+	// library trims identifiers, so "L", " L" and "L\n" designate one lock
+	ObserverID string `json:"observer_id_spelling,omitempty"`
+	// HolderReattempt: a third of the way through the hold the holder calls an acquire function on its own lock object
+	// again (a lock object shared by two goroutines of one process): it fails, and the lock it holds stays alive
+	HolderReattempt string `json:"holder_reattempt,omitempty"` // "" | trylock | lockwithtimeout
 }
 
 // beat is one heart-beat of the holder: start = its open was issued, end = its time stamp (chtimes) was completed;
@@ -290,6 +296,11 @@ func runCase(t ev.T, test string, c Case, confirmed bool) (suspectNoHeartBeat bo
 		}
 	}()
 	holder := filesystem.NewGenericRemoteLockFile(hFS.(*filesystem.VFS), "L", dir, false)
+	obsID := "L"
+	if c.ObserverID != "" {
+		obsID = c.ObserverID
+		ev.Class("observers spell the identifier differently")
+	}
 	if c.Reacquire {
 		if err := holder.TryLock(life); err != nil {
 			ev.Fail(t, prop, test, c, "the holder could not acquire a free lock (first acquisition): %v", err)
@@ -341,7 +352,7 @@ func runCase(t ev.T, test string, c Case, confirmed bool) (suspectNoHeartBeat bo
 	for i, o := range c.Observers {
 		name := fmt.Sprintf("obs%d", i+1)
 		_, ofs := box.NewClient(name)
-		lock := filesystem.NewGenericRemoteLockFile(ofs.(*filesystem.VFS), "L", dir, o.Action == "trylock-override")
+		lock := filesystem.NewGenericRemoteLockFile(ofs.(*filesystem.VFS), obsID, dir, o.Action == "trylock-override")
 		owg.Add(1)
 		go func(o Observer, name string) {
 			defer owg.Done()
@@ -397,7 +408,21 @@ func runCase(t ev.T, test string, c Case, confirmed bool) (suspectNoHeartBeat bo
 	}
 	// hold, then release (unless dead)
 	deadline := acquired.Add(holdFor)
+	reattemptAt := acquired.Add(holdFor / 3)
 	for time.Now().Before(deadline) {
+		if c.HolderReattempt != "" && diedAt.Load() == 0 && time.Now().After(reattemptAt) {
+			reattemptAt = deadline.Add(time.Hour)
+			var rerr error
+			if c.HolderReattempt == "lockwithtimeout" {
+				rerr = holder.LockWithTimeout(life, 15*time.Millisecond)
+			} else {
+				rerr = holder.TryLock(life)
+			}
+			if rerr == nil && diedAt.Load() == 0 {
+				ev.Fail(t, prop, test, c, "the holder's second %s on the lock it already holds returned nil", c.HolderReattempt)
+			}
+			ev.Class("the holder tried to acquire again while holding")
+		}
 		time.Sleep(2 * time.Millisecond)
 		vmu.Lock()
 		n := len(verdicts)
@@ -515,7 +540,7 @@ func runCase(t ev.T, test string, c Case, confirmed bool) (suspectNoHeartBeat bo
 		td = now // the bound runs from the moment somebody starts polling the dead holder's lock
 	}
 	_, rfs := box.NewClient("recovery")
-	fresh := filesystem.NewGenericRemoteLockFile(rfs.(*filesystem.VFS), "L", dir, false)
+	fresh := filesystem.NewGenericRemoteLockFile(rfs.(*filesystem.VFS), obsID, dir, false)
 	bound := 2*period + time.Second
 	var becameStale time.Time
 	lockGone := false
@@ -593,6 +618,12 @@ func genCase(t *rapid.T) Case {
 		c.SlowWriteMs = rapid.SampledFrom([]int{10, 35, 45}).Draw(t, "slow-write-ms")
 	}
 	c.Reacquire = rapid.IntRange(0, 3).Draw(t, "reacquire") == 0
+	if rapid.IntRange(0, 5).Draw(t, "obs-id") == 0 {
+		c.ObserverID = rapid.SampledFrom([]string{" L", "L ", "L\n", "\tL", " L \n"}).Draw(t, "obs-id-spelling")
+	}
+	if c.Periods >= 3 && rapid.IntRange(0, 4).Draw(t, "reattempt") == 0 {
+		c.HolderReattempt = rapid.SampledFrom([]string{"trylock", "lockwithtimeout"}).Draw(t, "reattempt-kind")
+	}
 	if rapid.IntRange(0, 4).Draw(t, "obs-stat-faults") == 0 {
 		c.ObsStatFailsEvery = rapid.SampledFrom([]int{1, 2, 3, 7, 20}).Draw(t, "obs-stat-fails-every")
 	}
